@@ -4,7 +4,7 @@
 From Coq Require Import Reals ZArith QArith Qreals List Lra Lia.
 From Coquelicot Require Import Coquelicot.
 From ADV Require Import Base.Fl Base.Num C01.Model C01.ModelR C01.Spec C01.ProofsComb C01.ProofsCoef C01.ProofsJet C01.ProofsRefuted
-     C01.ProofsStore C01.ProofsOps C01.ProofsSound C01.ProofsChain2 C01.ProofsProg.
+     C01.ProofsStore C01.ProofsOps C01.ProofsSound C01.ProofsChain2 C01.ProofsProg C01.ModelVariants C01.ProofsAlias.
 Import ListNotations.
 Open Scope R_scope.
 
@@ -307,6 +307,76 @@ Theorem jadd_is_slotwise_sum : forall S A B,
   jv (jadd S A B) = jv A + jv B /\ (forall i, jg (jadd S A B) i = jg A i + jg B i) /\
   (forall i j, jh (jadd S A B) i j = jh A i j + jh B i j).
 Proof. exact jadd_slots. Qed.
+
+(* ------------------------------------------------------------------ round 3 *)
+
+(* (A) receiver = operand aliasing, for EVERY combinator copy.  C01/ModelVariants.v transliterates the eight Go
+   functions (monadic, monadicLazy, realMonadic, realMonadicLazy, dyadic, dyadicLazy, realDyadic, realDyadicLazy)
+   one by one; for every carrier (binary64 replay included) each is the shared loop of C01/Model.v, so the generic
+   method and its concrete twin are the same instruction of the model. *)
+Theorem eight_combinators_two_loops : forall T (Fl0 : Fl T) (r32 : T -> T),
+  (forall v c a v0 v1 v2 (s : St), cmb_mon Fl0 r32 v c a v0 v1 v2 s = monadic Fl0 r32 c (Rg a) v0 v1 v2 s) /\
+  (forall v c a b v0 v10 v01 v11 v20 v02 (s : St),
+     cmb_dy Fl0 r32 v c a b v0 v10 v01 v11 v20 v02 s = dyadic Fl0 r32 c (Rg a) (Rg b) v0 v10 v01 v11 v20 v02 s) /\
+  (forall conc op c a s, do_mon_v Fl0 r32 conc op c a s = do_mon Fl0 r32 op c (Rg a) s) /\
+  (forall conc op c a b s, do_dy_v Fl0 r32 conc op c a b s = do_dy Fl0 r32 op c (Rg a) (Rg b) s).
+Proof.
+  intros T Fl0 r32. split; [apply cmb_mon_eq|]. split; [apply cmb_dy_eq|]. split; [apply do_mon_v_eq|apply do_dy_v_eq].
+Qed.
+(* the aliased call leaves in the receiver what the call with a fresh receiver c' leaves in c': value, order, N,
+   every gradient slot, every Hessian slot.  (C08 proves receiver-independence of the generic operation table over
+   an arbitrary carrier: coq/C08/Props.v combinator_one_operand_closed_form, combinator_two_operands_closed_form,
+   scalar_operation_receiver_independent, alias_one_operand, alias_two_operands.) *)
+Theorem alias_one_argument_every_copy : forall S v c c' v0 v1 v2 (s : St),        (* c.Op(c) *)
+  wf (s c) -> wf (s c') -> sym_reg S (s c) ->
+  exists s1 s2, cmb_mon (FlR S) idR v c c v0 v1 v2 s = Ok s1 /\ cmb_mon (FlR S) idR v c' c v0 v1 v2 s = Ok s2 /\
+                same_jet S (s1 c) (s2 c').
+Proof. exact monadic_copies_alias. Qed.
+Theorem alias_two_arguments_c_is_a : forall S v c c' b v0 v10 v01 v11 v20 v02 (s : St),   (* c.Op(c, b) *)
+  c' <> c -> c' <> b -> wf (s c) -> wf (s c') -> wf (s b) -> sym_reg S (s c) -> sym_reg S (s b) ->
+  dy_guard (s c) (s b) = None -> (rn (s b) <= rn (s c))%nat -> (rorder (s b) <= rorder (s c))%nat ->
+  exists s1 s2, cmb_dy (FlR S) idR v c c b v0 v10 v01 v11 v20 v02 s = Ok s1 /\
+                cmb_dy (FlR S) idR v c' c b v0 v10 v01 v11 v20 v02 s = Ok s2 /\ same_jet S (s1 c) (s2 c').
+Proof. exact dyadic_copies_alias_c_is_a. Qed.
+Theorem alias_two_arguments_c_is_b : forall S v c c' a v0 v10 v01 v11 v20 v02 (s : St),   (* c.Op(a, c) *)
+  c' <> c -> c' <> a -> wf (s c) -> wf (s c') -> wf (s a) -> sym_reg S (s c) -> sym_reg S (s a) ->
+  dy_guard (s a) (s c) = None -> (rn (s a) <= rn (s c))%nat -> (rorder (s a) <= rorder (s c))%nat ->
+  exists s1 s2, cmb_dy (FlR S) idR v c a c v0 v10 v01 v11 v20 v02 s = Ok s1 /\
+                cmb_dy (FlR S) idR v c' a c v0 v10 v01 v11 v20 v02 s = Ok s2 /\ same_jet S (s1 c) (s2 c').
+Proof. exact dyadic_copies_alias_c_is_b. Qed.
+Theorem alias_two_arguments_c_is_a_is_b : forall S v c c' v0 v10 v01 v11 v20 v02 (s : St),   (* c.Op(c, c) *)
+  c' <> c -> wf (s c) -> wf (s c') -> sym_reg S (s c) -> dy_guard (s c) (s c) = None ->
+  exists s1 s2, cmb_dy (FlR S) idR v c c c v0 v10 v01 v11 v20 v02 s = Ok s1 /\
+                cmb_dy (FlR S) idR v c' c c v0 v10 v01 v11 v20 v02 s = Ok s2 /\ same_jet S (s1 c) (s2 c').
+Proof. exact dyadic_copies_alias_c_is_a_is_b. Qed.
+(* hypotheses satisfiable: order 2, N = 2, gradients (1/2, 3/4) and (1, -1/4) non-zero and not proportional *)
+Example alias_hyps_nontrivial_instance : forall S,
+  wf (st_alias 0%nat) /\ wf (st_alias 1%nat) /\ wf (st_alias 2%nat) /\ sym_reg S (st_alias 0%nat) /\ sym_reg S (st_alias 1%nat) /\
+  dy_guard (st_alias 0%nat) (st_alias 1%nat) = None /\ dy_guard (st_alias 1%nat) (st_alias 0%nat) = None /\
+  dy_guard (st_alias 0%nat) (st_alias 0%nat) = None /\
+  (rn (st_alias 1%nat) <= rn (st_alias 0%nat))%nat /\ (rorder (st_alias 1%nat) <= rorder (st_alias 0%nat))%nat /\
+  gd (FlR S) (st_alias 0%nat) 0 * gd (FlR S) (st_alias 1%nat) 1 <> gd (FlR S) (st_alias 0%nat) 1 * gd (FlR S) (st_alias 1%nat) 0.
+Proof. exact alias_hyps_nontrivial. Qed.
+(* the statement order of the copies matters: with the gradient loop moved above the Hessian block (the seeded
+   regression of realDyadic) c.MUL(c, y) at x = y = 3/2 reports d2/dx2 = 6 instead of 2; value and gradient are right,
+   and with a fresh receiver nothing shows *)
+Theorem in_place_square_hessian : forall S,
+  exists s', dyadic (FlR S) idR 0 (Rg 0) (Rg 1) (3/2 * (3/2)) (3/2) (3/2) 1 0 0 st_sq = Ok s' /\
+             rval (s' 0%nat) = 9/4 /\ gd (FlR S) (s' 0%nat) 0 = 3 /\ gh (FlR S) (s' 0%nat) 0 0 = 2.
+Proof. exact mul_in_place_hessian. Qed.
+Theorem gradient_before_hessian_refuted : forall S,
+  exists s', dyadic_gradient_first (FlR S) idR 0 (Rg 0) (Rg 1) (3/2 * (3/2)) (3/2) (3/2) 1 0 0 st_sq = Ok s' /\
+             rval (s' 0%nat) = 9/4 /\ gd (FlR S) (s' 0%nat) 0 = 3 /\ gh (FlR S) (s' 0%nat) 0 0 = 6.
+Proof. exact gradient_first_refuted. Qed.
+(* (B) one table operation for ANY receiver: fresh, stale, an operand of the computation's shape, or an operand that
+   is still a constant — r.Add(r, x) on a fresh accumulator, which AllocForTwo reallocates (no [alloc_keeps]) *)
+Theorem step_dyadic_any_receiver : forall S n o op c a b (s : St) A B,
+  wf (s c) -> rep S n o (rd s a) A -> rep S n o (rd s b) B ->
+  exists s', do_dy (FlR S) idR op c a b s = Ok s' /\ frame c s s' /\ rk (s' c) = rk (s c) /\
+    rep S n o (s' c) (jdy (d_v0 (FlR S) op (jv A) (jv B)) (d_f10 (FlR S) op (jv A) (jv B)) (d_f01 (FlR S) op (jv A) (jv B))
+                          (d_f11 (FlR S) op (jv A) (jv B)) (d_f20 (FlR S) op (jv A) (jv B)) (d_f02 (FlR S) op (jv A) (jv B)) A B) /\
+    rorder (s' c) = Nat.max (rorder (rd s a)) (rorder (rd s b)) /\ rn (s' c) = Nat.max (rn (rd s a)) (rn (rd s b)).
+Proof. exact rep_dy_any. Qed.
 
 (* Not proved (stated for the record):
    composite_rest_partial — SmoothMax, LogSmoothMax, VdotV, Vnorm, Mnorm have no Coq statement (their loops are
